@@ -135,10 +135,13 @@ def work(ident, prop, tier, tree):
             r2 = K.verify(k, repo, spec_override=fn)
             n_ref = 0
             if r2.error is None:
-                for o in r2.obligations:
-                    discharge(o, timeout)
+                # a canary only has to be refuted once: post obligations first, short budget
+                for o in sorted(r2.obligations, key=lambda o: 0 if o.kind == "post" else 1):
+                    if o.status is None:
+                        discharge(o, 5000)
                     if o.status == "refuted":
                         n_ref += 1
+                        break
             out["canaries"].append({"label": label, "refuted": n_ref, "error": r2.error})
         out["seconds"] = round(time.time() - t0, 3)
         return out
